@@ -81,11 +81,22 @@ CLAIMED = {
   "note": "Trusted: clang's AST, z3/cvc5, the encoding assumptions listed in the evidence (64-bit signed arithmetic mathematical, floats abstract, typed reading of the definitions, no aliasing between pointer parameters). Preconditions (validity of offsets/parents/indexes) are those written in contracts/*.py. Bounded stand-ins are never counted as proved.",
   "technique": "contract-based deductive verification: self-written VC generator over the clang AST + lockstep equivalence with the YAML definitions, discharged by z3/cvc5; counterexamples replayed on the compiled kernels via ctypes"},
 }
+CLAIMED["C10"] = {
+  "category": "exploration",
+  "text": "NOT a proof: no deductive obligation exists for this property (record-field plumbing is Content object-graph code with no integer mechanism within reach of the VC generator, and ak.zip / ak.unzip / ak.with_field broadcast in Python, which cannot be executed here). What is checked is the C++ half only, by run-time contracts on the real compiled classes over a bounded seeded input space (Engine N): fields (x[\"f\"] and x[[\"f\", \"g\"]] through lists and options keep order, values and exactly the requested fields in the requested order), field_slices (projecting a field commutes with integers, ranges, ellipsis and newaxis placed before or after it), setitem_field (RecordArray::setitem_field: the new field reads back as given, every other field, the number of records and their order unchanged; tuples get a new slot), and records read as dicts / tuples with fields in declaration order (every family that contains records). 1200 (quick) / 20000 (thorough) cases per family.",
+  "ref": "DESIGN.md section 5 (C10)",
+  "note": "Bounded exploration only; ak.zip, ak.unzip, ak.with_field (src/awkward/operations/structure.py, _util.py broadcasting) are NOT covered. Trusted: the rapidjson stand-in (compile-only), the reference semantics in akvlib/nat/refops.py.",
+  "technique": "run-time contract checking of the real compiled layout classes on a bounded seeded input space (the bounded stand-in of the contract family; nothing is proved)"}
+CLAIMED["C17"] = {
+  "category": "exploration",
+  "text": "NOT a proof: no deductive obligation exists for this property (Type/Form hierarchies and string round trips; Form <-> JSON and the Lark type parser need rapidjson / Python and are NOT covered). What is checked is, by run-time contracts on the real compiled classes over a bounded seeded input space (Engine N family types): the item type printed for an array (Content::type with the default type strings) is the documented datashape-like syntax for its data (var *, N *, ?T / option[...], records, tuples, unions, string, bytes, dtypes) for every physical encoding; the type obtained from the form (Content::form -> Form::type) equals the type obtained from the array (also by Type::equal); a range slice has the same type; an element taken out of a list-typed array has the inner type; minmax_depth agrees with the value. 1200 (quick) / 20000 (thorough) cases.",
+  "ref": "DESIGN.md section 5 (C17)",
+  "note": "Bounded exploration only; Form -> JSON -> Form, type printing <-> re-parsing (src/awkward/_typeparser), forms.py/types.py and the high-level ak.type (array length prefix) are NOT covered. Trusted: the rapidjson stand-in (parameters compared as JSON text), the reference type syntax in akvlib/nat/engine.py (ref_type).",
+  "technique": "run-time contract checking of the real compiled layout and type classes on a bounded seeded input space (the bounded stand-in of the contract family; nothing is proved)"}
+
 NA = {
- "C10": "record-field plumbing is Content object-graph and Python broadcasting code with no integer mechanism; no contract within reach of the VC generator can express it and the code cannot be executed here",
  "C15": "io/json.cpp does not parse here (rapidjson headers absent from the sandbox), and the property is about strings and a SAX state machine driving builders",
  "C16": "implemented in convert.py/highlevel.py over ak.layout objects, NumPy and pyarrow; the package cannot be imported from /repo and the functions are not integer programs",
- "C17": "Type/Form hierarchies, Lark grammar and JSON parameter equality: Type.cpp, Content.cpp and util.cpp need rapidjson; printing/parsing round trips are string properties outside the engines",
  "C20": "Numba lowering emits LLVM IR from Python; neither numba against this tree nor _ext can be loaded, and generated IR is not a function the engines can contract",
 }
 NOT_BUILT = "not built yet in this round (planned in DESIGN.md section 5)"
@@ -131,7 +142,7 @@ def main():
             "evidence_file": "evidence/%s.json" % pid,
             "replay_cmd_template": "./akv replay {path}",
             "engine": c.get("engine", "akv"),
-            "level_claimed": {"category": "proof", "text": c["text"], "design_ref": c["ref"]},
+            "level_claimed": {"category": c.get("category", "proof"), "text": c["text"], "design_ref": c["ref"]},
             "level_note": c["note"],
             "technique": c["technique"],
         })
